@@ -5,6 +5,8 @@ the Rust leaf functions that `tools/extract.py` re-translates from /repo/src/*.r
 left-hand sides are regenerated, an edit of one of those functions changes a proof obligation of
 `lake build XehModel.Proofs.LeafBridge`; the table obligations live in Proofs/LeafTables.lean
 (imported here, so building this module checks both).
+The theorems live in one module per group of functions (Proofs/Leaf/*.lean) and per table (Proofs/Tables/*.lean); this
+module only gathers them.
 
   function (file)                     theorem                                   hypotheses
   upper_bound_index (bitstr.rs)       upperBoundIndex_matches_source            n < 2^64
@@ -27,191 +29,9 @@ Method: `mi_eval` (Proofs/LeafLemmas.lean) runs the evaluator symbolically on th
 leaves a closed arithmetic goal; `omega` closes it. For `cut_bits` the byte-level part is a finite
 kernel computation (Proofs/LeafFinite.lean) on the residues `start % 8`, `min (end-start) (8 - start%8)`.
 -/
-import XehModel.Model.LeafSpec
-import XehModel.Generated.Leaf
-import XehModel.Proofs.LeafLemmas
-import XehModel.Proofs.LeafFinite
-import XehModel.Proofs.LeafFiniteBits
+import XehModel.Proofs.Leaf.Common
+import XehModel.Proofs.Leaf.Bits
+import XehModel.Proofs.Leaf.Jumps
+import XehModel.Proofs.Leaf.Index
+import XehModel.Proofs.Leaf.Literals
 import XehModel.Proofs.LeafTables
-
-namespace Xeh.LeafBridge
-open Xeh.MI Xeh.Generated Xeh.LeafSpec
-
-/-- the de Bruijn indices the translator computed agree with the source names (so `extract.py`'s
-    scope resolution is checked, not trusted) -/
-theorem src_wellScoped : ∀ f ∈ src_all_fns, f.wellScoped = true := by decide
-
-section symbolic
-seal evalE binop unify arith coerce coerceAll meth1 meth2 meth2Same unop castTo bindArgs fit Ty.wrap Ty.toU bitAnd bitOr bitXor bitNot shlW shrW
-
-/-- close `List.map (·.v) [⟨a, t⟩, …] = [b, …]` by linear arithmetic -/
-macro "mi_finish" : tactic =>
-  `(tactic| (simp only [List.map_cons, List.map_nil, List.cons.injEq, and_true, true_and, List.cons_append, List.nil_append,
-               List.append_nil, boolVal, eq_self, Bool.false_eq_true, if_true, if_false] <;> omega))
-
-/-- **`upper_bound_index`**: ⌈n / 8⌉ -/
-theorem upperBoundIndex_matches_source (p : Profile) (n : Nat) (hn : n < 2^64) :
-    evalFn p src_upper_bound_index [(n : Int)] = .ok [(upperBoundIndex n : Nat)] := by
-  by_cases h : (n : Int) % 8 > 0
-  all_goals
-    apply evalFn_ok
-    mi_eval
-    unfold upperBoundIndex
-    mi_finish
-
-/-- **`RelativeJump::from_to`**: the signed distance `dest - origin`, whenever it fits the `i32` of
-    the opcode (0 stays 0: a self-jump) -/
-theorem fromTo_matches_source (p : Profile) (o d : Nat) (ho : o < 2^64) (hd : d < 2^64)
-    (h1 : -(2^31) ≤ jumpDistance o d) (h2 : jumpDistance o d < 2^31) :
-    evalFn p src_from_to [(o : Int), d] = .ok [jumpDistance o d] := by
-  unfold jumpDistance at *
-  by_cases h : (o : Int) > d
-  all_goals
-    apply evalFn_ok
-    mi_eval
-    mi_finish
-
-/-- **`RelativeJump::calculate`**: `ip + rel` -/
-theorem calculate_matches_source (p : Profile) (rel : Int) (ip : Nat) (hr1 : -(2^31) ≤ rel) (hr2 : rel < 2^31)
-    (hip : ip < 2^63) (h0 : 0 ≤ jumpTarget rel ip) (h1 : jumpTarget rel ip < 2^63) :
-    evalFn p src_calculate [rel, (ip : Int)] = .ok [jumpTarget rel ip] := by
-  unfold jumpTarget at *
-  apply evalFn_ok
-  mi_eval
-  mi_finish
-
-/-- the round trip the compiler relies on (`jump_offset` then `fetch_and_run`): a jump assembled at
-    `origin` towards `dest` lands on `dest` (code addresses below 2^31; note a zero distance stays a
-    self-jump) -/
-theorem fromTo_calculate_source (p : Profile) (o d : Nat) (ho : o < 2^31) (hd : d < 2^31) :
-    ∃ rel, evalFn p src_from_to [(o : Int), d] = .ok [rel] ∧
-           evalFn p src_calculate [rel, (o : Int)] = .ok [(d : Int)] := by
-  refine ⟨jumpDistance o d, ?_, ?_⟩
-  · apply fromTo_matches_source <;> (try unfold jumpDistance) <;> omega
-  · have h := calculate_matches_source p (jumpDistance o d) o
-      (by unfold jumpDistance; omega) (by unfold jumpDistance; omega) (by omega)
-      (by unfold jumpTarget jumpDistance; omega) (by unfold jumpTarget jumpDistance; omega)
-    rw [h]; unfold jumpTarget jumpDistance; congr 2; omega
-
-/-- `Option<usize>` as the evaluator returns it: tag, payload -/
-def optEnc : Option Nat → List Int
-  | none => [0, 0]
-  | some k => [1, (k : Int)]
-
-/-- **`relative_index`**: Python-style index, `None` outside -/
-theorem relativeIndex_matches_source (p : Profile) (len : Nat) (i : Int) (hl : len < 2^64)
-    (hi1 : -(2^63) ≤ i) (hi2 : i < 2^63) :
-    evalFn p src_relative_index [(len : Int), i] = .ok (optEnc (relativeIndex len i)) := by
-  by_cases h1 : i < 0
-  · have e1 : ¬ (0 ≤ i) := by omega
-    by_cases h2 : (i.natAbs : Int) > len
-    · have e2 : ¬ (0 ≤ (len : Int) + i) := by omega
-      apply evalFn_ok
-      mi_eval
-      simp [relativeIndex, e1, e2, optEnc]
-    · have e2 : 0 ≤ (len : Int) + i := by omega
-      apply evalFn_ok
-      mi_eval
-      simp only [relativeIndex, e1, e2, if_true, if_false, optEnc]
-      mi_finish
-  · have e1 : 0 ≤ i := by omega
-    by_cases h2 : i < len
-    · apply evalFn_ok
-      mi_eval
-      simp only [relativeIndex, e1, h2, if_true, optEnc]
-      mi_finish
-    · apply evalFn_ok
-      mi_eval
-      simp [relativeIndex, e1, h2, optEnc]
-
-/-- **`slicing_index`**: Python-style slice bound, clamped to `0 ..= len` -/
-theorem slicingIndex_matches_source (p : Profile) (i : Int) (len : Nat) (hl : len < 2^64)
-    (hi1 : -(2^63) ≤ i) (hi2 : i < 2^63) :
-    evalFn p src_slicing_index [i, (len : Int)] = .ok [(slicingIndex i len : Nat)] := by
-  by_cases h1 : i < 0
-  all_goals
-    apply evalFn_ok
-    mi_eval
-    unfold slicingIndex
-    simp only [h1, if_true, if_false]
-    mi_finish
-
-/-- the i64 test of `load_value_opcode`, for every i128 -/
-theorem loadI64_guard_matches_source (p : Profile) (i : Int) (h1 : -(2^127) ≤ i) (h2 : i < 2^127) :
-    evalFn p src_load_i64_guard [i] = .ok [if fitsI64 i then 1 else 0] := by
-  apply evalFn_ok
-  mi_eval
-  unfold fitsI64
-  simp only [List.map_cons, List.map_nil, Ty.lo, Ty.hi]
-  rfl
-
-/-- and in that case `i as i64` keeps the value -/
-theorem loadI64_payload_matches_source (p : Profile) (i : Int) (h : fitsI64 i = true) :
-    evalFn p src_load_i64_payload [i] = .ok [i] := by
-  simp only [fitsI64, decide_eq_true_eq] at h
-  apply evalFn_ok
-  mi_eval
-  mi_finish
-
-/-- `cut_bits` evaluated symbolically: only the residues `start % 8` and the clipped length reach
-    the byte-level computation -/
-theorem cutBits_eval (p : Profile) (x s e : Nat) (hx : x < 256) (hs : s ≤ e) (he : e < 2^64) :
-    evalFn p src_cut_bits [(x : Int), s, e] =
-      .ok [cutCore x ((s % 8 : Nat) : Int) ((cutBitsLen s e : Nat) : Int), ((cutBitsLen s e : Nat) : Int)] := by
-  have e1 : (s : Int) % 8 = ((s % 8 : Nat) : Int) := by omega
-  have e2 : min ((e : Int) - s) (8 - ((s % 8 : Nat) : Int)) = ((cutBitsLen s e : Nat) : Int) := by
-    unfold cutBitsLen; omega
-  apply evalFn_ok
-  mi_eval
-  simp only [List.map_cons, List.map_nil, cutCore, e1, e2]
-
-end symbolic
-/-- **`cut_bits`** (bitstr.rs): for every byte, every bit range `start ≤ end` in the address space and
-    both build profiles the Rust function returns the `cutBitsLen` bits of the byte from bit
-    `start % 8`, as a number, and that length; it never panics. -/
-theorem cutBits_matches_source (p : Profile) (x s e : Nat) (hx : x < 256) (hs : s ≤ e) (he : e < 2^64) :
-    evalFn p src_cut_bits [(x : Int), s, e] = .ok [(cutBitsVal x s e : Nat), (cutBitsLen s e : Nat)] := by
-  rw [cutBits_eval p x s e hx hs he]
-  have hsb : s % 8 < 8 := Nat.mod_lt _ (by decide)
-  have hlen : cutBitsLen s e < 9 := by unfold cutBitsLen; omega
-  have hsum : s % 8 + cutBitsLen s e ≤ 8 := by unfold cutBitsLen; omega
-  rw [cutCore_spec x (s % 8) (cutBitsLen s e) hx hsb hlen hsum]; rfl
-
-/-- … and those are bits `start % 8 ..` of the byte, most significant first -/
-theorem cutBitsVal_bits (x s e : Nat) (hx : x < 256) :
-    cutBitsVal x s e = cutBitsBits x (s % 8) (cutBitsLen s e) := by
-  have hsb : s % 8 < 8 := Nat.mod_lt _ (by decide)
-  have hlen : cutBitsLen s e < 9 := by unfold cutBitsLen; omega
-  have hsum : s % 8 + cutBitsLen s e ≤ 8 := by unfold cutBitsLen; omega
-  exact cutBits_bits x (s % 8) (cutBitsLen s e) hx hsb hlen hsum
-
-/-- **`bit_mask`**: `2^len − 1` for every length a byte can hold -/
-theorem bitMask_matches_source (p : Profile) (len : Nat) (h : len ≤ 8) :
-    evalFn p src_bit_mask [(len : Int)] = .ok [(bitMask len : Nat)] := by
-  have key : ∀ p : Profile, ∀ l : Fin 9, evalFn p src_bit_mask [(l.val : Int)] = .ok [(bitMask l.val : Nat)] := by
-    intro p; cases p <;> decide
-  exact key p ⟨len, by omega⟩
-
-/-- **fmt_flags.rs**: the five constants and the default flags word -/
-theorem fmt_constants_match (p : Profile) :
-    evalFn p src_FMT_BASE_MASK [] = .ok [(fmtBaseMask : Nat)] ∧
-    evalFn p src_FMT_PREFIX_BIT [] = .ok [(fmtPrefixBit : Nat)] ∧
-    evalFn p src_FMT_TAGS_BIT [] = .ok [(fmtTagsBit : Nat)] ∧
-    evalFn p src_FMT_FITSCREEN_BIT [] = .ok [(fmtFitscreenBit : Nat)] ∧
-    evalFn p src_FMT_UPCASE_BIT [] = .ok [(fmtUpcaseBit : Nat)] ∧
-    evalFn p src_fmt_default [] = .ok [(fmtDefault : Nat)] := by
-  cases p <;> decide
-
-/-! ### the hypotheses are satisfiable, and they matter: concrete evaluations -/
-
-example : evalFn .debug src_cut_bits [0xA5, 9, 13] = .ok [4, 4] := by decide +kernel
-example : evalFn .debug src_relative_index [3, -1] = .ok [1, 2] := by decide +kernel
-example : evalFn .release src_slicing_index [-10, 3] = .ok [0] := by decide +kernel
-example : evalFn .debug src_from_to [7, 7] = .ok [0] := by decide +kernel
-/-- `start > end` is outside `cut_bits`' contract: a debug build panics … -/
-example : evalFn .debug src_cut_bits [0, 5, 4] = .panic "attempt to subtract with overflow" := by decide +kernel
-/-- … and so does `calculate` at the top of the `isize` range, while a release build wraps -/
-example : evalFn .debug src_calculate [1, 2^63 - 1] = .panic "attempt to add with overflow" := by decide +kernel
-example : evalFn .release src_calculate [1, 2^63 - 1] = .ok [2^63] := by decide +kernel
-
-end Xeh.LeafBridge
